@@ -10,7 +10,7 @@ The acquire/release tables are discovered from the program (P_init/P_alloc/...
 paired with an existing P_free/P_cancel/...) plus a short libc/OpenSSL table.
 """
 import re
-from .ir import norm, show, root_var, subterms
+from .ir import norm, show, root_var, subterms, _pure
 from .dataflow import Solver, cond_atoms
 
 LIBC_ACQ = {
@@ -306,6 +306,229 @@ class Leak:
                     leaks.append((f.elem(sidx), p[1] if p[0] == "lost" else p, e))
         s.visit(visit)
         return sites, leaks
+
+
+# --------------------------------------------------------------------------
+# DOUBLE-FREE: a released object is not released again
+# --------------------------------------------------------------------------
+_ff_memo = {}
+
+
+def frees_on_failure(prog, g, rel=None):
+    """Indices of g's pointer parameters that g releases -- directly or through an lvalue it has stored them in -- on a path
+    that ends in one of its failure returns.  (On such a return the caller still believes it owns the argument.)"""
+    key = (g.unit.path, g.name, g.unit.prog_id if hasattr(g.unit, "prog_id") else id(prog))
+    if key in _ff_memo:
+        return _ff_memo[key]
+    _ff_memo[key] = ()
+    pidx = {p["id"]: i for i, p in enumerate(g.params)}
+    alias = {}
+    for i, p in enumerate(g.params):
+        if (g.unit.types.get(p.get("ty")) or {}).get("kind") == "ptr":
+            alias[("v", p["name"], p["id"])] = i
+    for e in g.all_elems():
+        if e.is_assign and e.op == "=":
+            v = norm(e.kid(1))
+            if v in alias and v[0] == "v" and v[2] in pidx:
+                alias[norm(e.kid(0))] = alias[v]
+    fails = [r for r in g.returns() if is_failure_return(r)]
+    out = set()
+    for c in g.calls():
+        if not (c.callee and (c.callee in rel if rel is not None else GENERIC_RELEASERS.search(c.callee))):
+            continue
+        for a in c.args:
+            if a is None:
+                continue
+            n = norm(a)
+            if n in alias:
+                reach = g.reach_from(c.block.id) | {c.block.id}
+                if any(r.block.id in reach for r in fails):
+                    out.add(alias[n])
+    _ff_memo[key] = tuple(sorted(out))
+    return _ff_memo[key]
+
+
+_ar_memo = {}
+
+
+def alloc_reach(prog, g):
+    """g, or something it calls, allocates memory."""
+    key = (g.unit.path, g.name, id(prog))
+    if key in _ar_memo:
+        return _ar_memo[key]
+    _ar_memo[key] = False
+    r = False
+    for c in g.calls():
+        if c.callee in ALLOCATORS or c.callee in ("asprintf", "vasprintf"):
+            r = True
+            break
+        h = prog.resolve(g, c.callee) if c.callee else None
+        if h is not None and alloc_reach(prog, h):
+            r = True
+            break
+    _ar_memo[key] = r
+    return r
+
+
+def alloc_fallible(prog, f, callee):
+    """Calling `callee` from f can fail for lack of memory: 'ptr' / 'int' (how failure is reported) or None."""
+    if callee in ALLOCATORS:
+        return "ptr"
+    if callee in ("asprintf", "vasprintf"):
+        return "int"
+    g = prog.resolve(f, callee) if callee else None
+    if g is not None and may_fail(prog, g) and alloc_reach(prog, g):
+        return "ptr" if (g.unit.types.get(g.ret) or {}).get("kind") == "ptr" else "int"
+    return None
+
+
+class DoubleFree:
+    """A release of a path that was already released on some way there, with nothing assigned to it in between.
+
+    State: a bounded set of worlds (trace partitioning), each a pair (entries, facts).  Entries are ('freed', path, site) and
+    ('pend', callpos, path, site): a call whose callee releases an argument on its own failure paths leaves that argument
+    pending, and the edge on which the call is found to have failed turns pending into freed.  Facts are equalities and
+    disequalities between a pure term and a constant learnt from branches; an edge that contradicts a world's facts drops
+    the world (so "the loop ran out of candidates" and "a candidate was kept" are not confused after the loop).  A world also
+    records whether it has passed the failure edge of an operation that can fail for lack of memory (directly tested, or
+    through the variable its result was assigned to): with alloc_only, only such worlds report."""
+    MAXW = 24
+
+    def __init__(self, prog, releasers=None, alloc_only=False):
+        self.prog = prog
+        self.alloc_only = alloc_only
+        rel = set(["free", "close", "fclose", "freeaddrinfo", "events_freerec", "BN_free", "BN_clear_free", "BN_CTX_free", "SSL_free", "SSL_CTX_free"])
+        for v in (releasers or discover_acquirers(prog)).values():
+            rel |= set(v)
+        self.rel = rel
+
+    def analyze(self, f):
+        prog = self.prog
+        rel = self.rel
+        found = []
+        nfree = [0]
+
+        def mentions(t, lhs):
+            return t == lhs or (lhs[0] == "v" and any(x == lhs for x in subterms(t)))
+
+        def kill(w, lhs):
+            ent, facts, af = w
+            return (frozenset(x for x in ent if not mentions(x[-2], lhs)), frozenset(x for x in facts if not mentions(x[0], lhs)), af)
+
+        def failing(op, R, how):
+            if how == "ptr":
+                return op == "==" and R == ("c", 0)
+            return (op == "!=" and R == ("c", 0)) or (op == "==" and R == ("c", -1)) or (op == "<" and R == ("c", 0))
+
+        def tr1(w, e):
+            if e.is_assign or e.is_incdec:
+                w = kill(w, norm(e.kid(0)))
+                if e.is_assign and e.op == "=":
+                    r = e.kid(1).strip() if e.kid(1) is not None else None
+                    if r is not None and r.cls == "CallExpr" and r.callee:
+                        how = alloc_fallible(prog, f, r.callee)
+                        if how is not None:
+                            w = (w[0] | frozenset([("afvar", how, norm(e.kid(0)), r.pos)]), w[1], w[2])
+                return w
+            if e.cls == "CallExpr" and e.callee:
+                c = e.callee
+                ent, facts, af = w
+                if c in rel:
+                    for a in e.args:
+                        if a is None:
+                            continue
+                        n = norm(a)
+                        if not trackable(n) or n[0] == "c":
+                            continue
+                        ent = ent | frozenset([("freed", n, e.pos)])
+                    return (ent, facts, af)
+                g = prog.resolve(f, c)
+                if g is not None:
+                    for k in frees_on_failure(prog, g, rel):
+                        a = e.arg(k)
+                        if a is not None and trackable(norm(a)):
+                            ent = ent | frozenset([("pend", e.pos, norm(a), e.pos)])
+                w = (ent, facts, af)
+                # an address-of argument may be rewritten by the callee
+                for a in e.args:
+                    if a is not None and norm(a)[0] == "&":
+                        w = kill(w, norm(a)[1])
+                return w
+            return w
+
+        def transfer(st, e):
+            return frozenset(tr1(w, e) for w in st)
+
+        def rf1(w, cond, kind):
+            ent, facts, af = w
+            for op, L, R, Le, Re in cond_atoms(cond, kind):
+                for x in ent:
+                    if x[0] == "afvar" and x[2] == L and failing(op, R, x[1]):
+                        af = True
+                if R[0] == "c" and isinstance(R[1], int) and op in ("==", "!=") and _pure(L) and L[0] != "c":
+                    for (l2, o2, c2) in facts:
+                        if l2 != L:
+                            continue
+                        if (op == "==" and o2 == "==" and c2 != R[1]) or (op == "==" and o2 == "!=" and c2 == R[1]) or (op == "!=" and o2 == "==" and c2 == R[1]):
+                            return None
+                    facts = facts | frozenset([(L, op, R[1])])
+                ce = Le.strip() if Le is not None else None
+                if ce is None or ce.cls != "CallExpr":
+                    continue
+                how = alloc_fallible(prog, f, ce.callee)
+                if how is not None and failing(op, R, how):
+                    af = True
+                pend = [x for x in ent if x[0] == "pend" and x[1] == ce.pos]
+                if not pend:
+                    continue
+                g = prog.resolve(f, ce.callee)
+                ptr = g is not None and (g.unit.types.get(g.ret) or {}).get("kind") == "ptr"
+                failed = (op == "==" and R == ("c", 0)) if ptr else ((op == "!=" and R == ("c", 0)) or (op == "==" and R == ("c", -1)) or (op == "<" and R == ("c", 0)))
+                ok = (op == "!=" and R == ("c", 0)) if ptr else ((op == "==" and R == ("c", 0)) or (op == ">=" and R == ("c", 0)))
+                if failed:
+                    ent = (ent - frozenset(pend)) | frozenset(("freed", x[2], x[3]) for x in pend)
+                elif ok:
+                    ent = ent - frozenset(pend)
+            return (ent, facts, af)
+
+        def refine(st, cond, kind):
+            if kind not in (True, False):
+                return st
+            out = set()
+            for w in st:
+                r = rf1(w, cond, kind)
+                if r is not None:
+                    out.add(r)
+            return frozenset(out) if out else None
+
+        def join(a, b):
+            u = a | b
+            if len(u) > self.MAXW:
+                outw = set()
+                for flag in (False, True):
+                    ws = [w for w in u if w[2] == flag]
+                    if ws:
+                        outw.add((frozenset().union(*[w[0] for w in ws]), frozenset.intersection(*[w[1] for w in ws]), flag))
+                return frozenset(outw)
+            return u
+
+        s = Solver(f, frozenset([(frozenset(), frozenset(), False)]), transfer, refine, join).run()
+
+        def visit(e, st):
+            if e.cls == "CallExpr" and e.callee in rel:
+                nfree[0] += 1
+                for a in e.args:
+                    if a is None:
+                        continue
+                    n = norm(a)
+                    for ent, _, af in st:
+                        if self.alloc_only and not af:
+                            continue
+                        for x in ent:
+                            if x[0] == "freed" and x[1] == n and x[2] != e.pos:
+                                found.append((e, n, f.elem(x[2])))
+        s.visit(visit)
+        return nfree[0], found
 
 
 _rel_memo = {}
